@@ -154,6 +154,26 @@ def canonical_templates(r):
     ]
 
 
+def idiom_prefixes(r):
+    p = lambda n: push(r, rb(r, n), "d")
+    return [
+        ("name_new", b"\x51" + p(20) + b"\x6d"),
+        ("name_firstupdate", b"\x52" + p(5) + p(8) + p(10) + b"\x6d\x6d"),
+        ("name_update", b"\x53" + p(5) + p(10) + b"\x6d\x75"),
+        ("name_new-noop", b"\x51" + p(20) + b"\x61\x6d"),
+        ("cltv", b"\x03" + (500000).to_bytes(3, "little") + b"\xb1\x75"),
+        ("csv", b"\x52\xb2\x75"),
+        ("push-drop", p(4) + b"\x75"),
+        ("dup-drop", b"\x76\x75"),
+        ("if", b"\x63"),
+        ("true-verify", b"\x51\x69"),
+        ("codesep", b"\xab"),
+        ("depth-drop", b"\x74\x75"),
+        ("op1", b"\x51"),
+        ("2drop", b"\x6d"),
+    ]
+
+
 def one_byte_neighbourhood(r, s, exhaustive):
     """truncations, one-byte extensions and one-byte substitutions of s"""
     for i in range(len(s)):
@@ -223,6 +243,18 @@ def boundary(r, exhaustive=False):
         for dl in range(0, 6):
             yield "trunc-data", bytes([op]) + (5).to_bytes(w, "little") + b"abcde"[:dl]
             yield "trunc-data", b"\x6a" + bytes([op]) + (5).to_bytes(w, "little") + b"abcde"[:dl]
+    # templates embedded in larger programs: script idioms of Bitcoin-family coins (Namecoin name operations, CLTV/CSV guards,
+    # drops, conditionals) before a complete template, extra tokens after it, two templates back to back.  None of these
+    # token sequences IS a template, so none may be typed as one
+    for iname, pre in idiom_prefixes(r):
+        for tname, s in canonical_templates(r):
+            yield "idiom:%s+%s" % (iname, tname), pre + s
+    for tname, s in canonical_templates(r):
+        for suf in (b"\x75", b"\x51", b"\x68", b"\x01\x07\x75", b"\x6a", b"\xac", b"\x87", b"\x88\xac"):
+            yield "suffix:" + tname, s + suf
+        yield "wrapped:" + tname, b"\x63" + s + b"\x68"
+        for tname2, s2 in canonical_templates(r)[:4]:
+            yield "twice:" + tname, s + s2
     yield "huge-len", b"\x4e\xff\xff\xff\xff" + rb(r, 10)
     yield "huge-len", b"\x4e\xff\xff\xff\x7f"
     yield "huge-len", b"\x6a\x4e\xfe\xff\xff\xff" + rb(r, 3)
